@@ -411,7 +411,7 @@ int main()
       else if (w.size() == 3 && w[0] == "print") { std::string b; if (unhex(w[2], b)) { r = cmdPrint(w[1] == "1", b); } }
     }
     catch (const std::exception& ex) { r = std::string("harness-exception:") + ex.what(); }
-    std::cout << r << "\n";
+    std::cout << r << "\n" << std::flush;
   }
   return 0;
 }
